@@ -204,14 +204,44 @@ class VNet:
             ep.protocol.datagram_received(data, src)
 
 
-class VLoop(asyncio.SelectorEventLoop):
-    """SelectorEventLoop whose network is a VNet."""
+class _VSelector:
+    """Selector for virtual time: instead of sleeping until the next timer is due it moves the loop's clock there.
+    (The in-memory transports have no file descriptors; the only real one is the loop's own wake-up pipe.)"""
 
-    def __init__(self, net: VNet):
-        super().__init__()
+    def __init__(self, real, clock: list):
+        self._real = real
+        self._clock = clock
+
+    def select(self, timeout=None):
+        ready = self._real.select(0)
+        if ready or timeout is None:
+            return ready if ready else self._real.select(timeout)      # nothing scheduled at all: wait for a wake-up as usual
+        if timeout > 0:
+            self._clock[0] += timeout
+        return []
+
+    def __getattr__(self, name):
+        return getattr(self._real, name)
+
+
+class VLoop(asyncio.SelectorEventLoop):
+    """SelectorEventLoop whose network is a VNet.  With vtime=True its clock is virtual as well: timers (sleep, wait_for,
+    call_later - the driver's and the library's alike) fire in order, at once, whenever nothing else is ready to run."""
+
+    def __init__(self, net: VNet, vtime: bool = False):
+        self._vclock = [1000.0]
+        self._vtime = vtime
+        if vtime:
+            import selectors
+            super().__init__(_VSelector(selectors.DefaultSelector(), self._vclock))
+        else:
+            super().__init__()
         self.net = net
         self.exceptions: list[dict] = []
         self.set_exception_handler(self._record_exception)
+
+    def time(self):
+        return self._vclock[0] if self._vtime else super().time()
 
     def _record_exception(self, loop, context):
         self.exceptions.append(context)
